@@ -115,6 +115,9 @@ structure Worker (K : Codec) where
   enc : Bytes := []                            -- contents of the encode buffer `buf`
   dec : Option (K.Cache × Option K.Msg) := none -- cache snapshot at decode time and `decodedMsg`
   mar : Mar := .none
+  nDec : Nat := 0                              -- ghost: decode / countDecoded / publish steps taken for `cur`
+  nCnt : Nat := 0
+  nPub : Nat := 0
 
 inductive Event (K : Codec)
   | received (d : Dgram)
@@ -202,7 +205,7 @@ def wstep (cfg : Cfg) (s : State K) (i : Nat) (w : Worker K) (quit : Bool) (mb :
   match w.pc with
   | [] =>
       -- end of the iteration (`continue` / fall through): back to the loop head
-      some { s.setW i { w with pc := cfg.prog.loop, cur := none, dec := none, mar := .none } with
+      some { s.setW i { w with pc := cfg.prog.loop, cur := none, dec := none, mar := .none, nDec := 0, nCnt := 0, nPub := 0 } with
              fin := w.cur.toList ++ s.fin }
   | .putBack :: rest =>
       match w.msg with
@@ -214,7 +217,7 @@ def wstep (cfg : Cfg) (s : State K) (i : Nat) (w : Worker K) (quit : Bool) (mb :
       else match s.udpq with
         | (b, d) :: q =>
             some { s.setW i { w with pc := rest, msg := some b, owns := true, cur := some d,
-                                     dec := none, mar := .none } with udpq := q }
+                                     dec := none, mar := .none, nDec := 0, nCnt := 0, nPub := 0 } with udpq := q }
         | [] => none
   | .log :: rest => some (s.setW i { w with pc := rest })
   | .mirrorCopy :: rest =>
@@ -243,7 +246,7 @@ def wstep (cfg : Cfg) (s : State K) (i : Nat) (w : Worker K) (quit : Bool) (mb :
   | .decode :: rest =>
       match w.msg, w.cur with
       | some b, some d =>
-          some { s.setW i { w with pc := rest, dec := some (s.cache, (K.decode s.cache d.addr (s.mem b)).1) } with
+          some { s.setW i { w with pc := rest, dec := some (s.cache, (K.decode s.cache d.addr (s.mem b)).1), nDec := w.nDec + 1 } with
                  cache := (K.decode s.cache d.addr (s.mem b)).2,
                  log := .decoded d.id s.cache (K.decode s.cache d.addr (s.mem b)).1 :: s.log }
       | _, _ => none
@@ -259,7 +262,7 @@ def wstep (cfg : Cfg) (s : State K) (i : Nat) (w : Worker K) (quit : Bool) (mb :
           else some (s.setW i { w with pc := [] })
   | .countDecoded :: rest =>
       match w.cur with
-      | some d => some { s.setW i { w with pc := rest } with
+      | some d => some { s.setW i { w with pc := rest, nCnt := w.nCnt + 1 } with
                          decCount := s.decCount + 1, log := .countDecoded d.id :: s.log }
       | none => none
   | .marshal own :: rest =>
@@ -275,7 +278,7 @@ def wstep (cfg : Cfg) (s : State K) (i : Nat) (w : Worker K) (quit : Bool) (mb :
   | .publishCopy :: rest =>
       match w.cur, w.payload with
       | some d, some p =>
-          let s1 := s.setW i { w with pc := rest }
+          let s1 := s.setW i { w with pc := rest, nPub := w.nPub + 1 }
           some (if s.mq.length < cfg.mqCap
                 then { s1 with mq := s.mq ++ [.val d.id p], log := .published d.id p :: s.log }
                 else { s1 with log := .dropped d.id p :: s.log })
@@ -283,7 +286,7 @@ def wstep (cfg : Cfg) (s : State K) (i : Nat) (w : Worker K) (quit : Bool) (mb :
   | .publishAlias :: rest =>
       match w.cur, w.payload with
       | some d, some p =>
-          let s1 := s.setW i { w with pc := rest }
+          let s1 := s.setW i { w with pc := rest, nPub := w.nPub + 1 }
           let item := match w.mar with
             | .okEnc => MQItem.ref d.id i
             | _ => MQItem.val d.id p
